@@ -830,7 +830,7 @@ pub fn gen(seed: u64, thorough: bool) -> Vec<String> {
     };
 
     // ---- A. configuration sweep: 12 colour formats x 5 filters x alpha on/off x 5 layouts x contents
-    let reps = if thorough { 12 } else { 1 };
+    let reps = if thorough { 40 } else { 2 };
     for _ in 0..reps {
         for chan in CHANS {
             for prec in PRECS {
@@ -863,17 +863,17 @@ pub fn gen(seed: u64, thorough: bool) -> Vec<String> {
     // ---- B. size sweep
     let mut sizes: Vec<((u32, u32), u32)> = Vec::new(); // (size, configurations per size)
     if thorough {
-        sizes.extend(small.iter().map(|s| (*s, 60)));
-        sizes.extend(grid.iter().map(|s| (*s, 30)));
-        sizes.extend(pow2.iter().map(|s| (*s, if s.0 * s.1 > 16384 { 20 } else { 60 })));
-        sizes.extend(extreme.iter().map(|s| (*s, 60)));
+        sizes.extend(small.iter().map(|s| (*s, 200)));
+        sizes.extend(grid.iter().map(|s| (*s, 120)));
+        sizes.extend(pow2.iter().map(|s| (*s, if s.0 * s.1 > 16384 { 40 } else { 150 })));
+        sizes.extend(extreme.iter().map(|s| (*s, 200)));
     } else {
-        sizes.extend(small.iter().map(|s| (*s, 6)));
-        for _ in 0..260 {
+        sizes.extend(small.iter().map(|s| (*s, 12)));
+        for _ in 0..700 {
             sizes.push((*rng.pick(&grid), 2));
         }
-        sizes.extend(pow2.iter().map(|s| (*s, if s.0 * s.1 > 16384 { 2 } else { 5 })));
-        sizes.extend(extreme.iter().map(|s| (*s, 8)));
+        sizes.extend(pow2.iter().map(|s| (*s, if s.0 * s.1 > 16384 { 3 } else { 10 })));
+        sizes.extend(extreme.iter().map(|s| (*s, 16)));
     }
     for ((w, h), k) in sizes {
         for _ in 0..k {
